@@ -9,6 +9,11 @@ from . import loop as simloop
 from .trace import Recorder
 
 
+class _Quiet:
+    def rec(self, *a):
+        pass
+
+
 class FakeFile:
     """Append-only text 'file': read() returns what is there now (optionally a
     short read), seek(0, 2) jumps to the end."""
@@ -180,6 +185,7 @@ def run_source(sc):
     status = ['ok']
     s = sc['source']
     keep = []
+    S2 = {}
 
     async def main():
         from tornado.ioloop import IOLoop
@@ -194,9 +200,13 @@ def run_source(sc):
             # end in the middle of a multi-byte character
             fobj = FakeFile(rec, bytes.fromhex(s.get('pre_hex', '')), s.get('short'))
 
+            fobj2 = FakeFile(_Quiet(), b'', None)      # (the second file's reads are not part of the trace)
+            S2['fobj2'] = fobj2
+
             def fake_open(path, mode='r', *a, **k):
                 rec.rec('open', mode)
-                return fobj if 'b' in mode else TextOverBytes(fobj)
+                f_ = fobj2 if path == '/data/other.txt' else fobj
+                return f_ if 'b' in mode else TextOverBytes(f_)
             streamz.sources.open = fake_open
             src = Stream.from_textfile('/data/log.txt', poll_interval=s['poll'], delimiter=s.get('delimiter', '\n'), **kw)
         elif s['type'] == 'textfile':
@@ -231,6 +241,10 @@ def run_source(sc):
         state = {'n': 0}
         keep.append(node.sink(make_sink(rec, sc.get('sink', {}), state)))
         twin = None
+        if s['type'] == 'textfile' and s.get('twin_text'):
+            twin = Stream.from_textfile('/data/other.txt', poll_interval=s['poll'], delimiter=s.get('delimiter', '\n'), **kw)
+            keep.append(twin)
+            keep.append(twin.sink(lambda x: rec.rec('twin_emit', x)))
         if s['type'] == 'filenames' and s.get('twin'):
             # a second, independent source watching the same directory (another consumer of the same files):
             # what one source has emitted is no business of the other
@@ -256,6 +270,8 @@ def run_source(sc):
                 src.stop()
                 if twin is not None:
                     twin.stop()
+            elif k == 'append' and op.get('file') == 2:
+                S2['fobj2'].append(bytes.fromhex(op['hex']))
             elif k == 'append':
                 fobj.append(bytes.fromhex(op['hex']) if 'hex' in op else op['data'])
             elif k == 'create':
